@@ -247,6 +247,11 @@ ROLES = (
      (t.get('dest') or {}).get('ty') in ('f64', 'f32', 'bool'),
      'exclude': lambda t: (t['func'].get('trait') or '').endswith(('Basis', 'State')) and
      (t['func'].get('fn') or '').rsplit('::', 1)[-1] in ('set_sampled', 'score', 'reset_value', 'set_value')},
+    # the overlap test of the hard state (reference: check_intersection): the outermost unknown method of PackedState that
+    # compares shapes with Intersect::intersects
+    {'reference': 'state::packed::PackedState::<S>::check_intersection', 'crate': 'lib', 'self_adt': 'state::packed::PackedState',
+     'construct': lambda t: (t['func'].get('trait') or '').endswith('Intersect') and
+     (t['func'].get('fn') or '').rsplit('::', 1)[-1] == 'intersects'},
 )
 
 
@@ -260,6 +265,8 @@ def _role_keepers(facts, known, helpers):
         calls = {}
         for k, b in helpers.items():
             if b.crate_kind != role['crate']:
+                continue
+            if role.get('self_adt') and facts.norm(b.impl_self_adt or '') != role['self_adt']:
                 continue
             direct = any(role['construct'](t) for _bi, t in b.calls())
             # closures of the function count as the function
